@@ -23,6 +23,23 @@ TARGETS = [
            (r'return \*this;', 'return this;', 1)]),
     Target('set_error_number', TH, r'int set_error_number\(\)', rules=[fields_rule(['error_number'], min_fires=3)]),
     Target('waitq_translate_errno', TH, r'inline int waitq_translate_errno\(int ret\)'),
+    Target('thread_yield', TH, r'int thread_yield\(\)\s*(?=\{\s*RunQ rq;)', rules=[
+        (r'RunQ rq;', 'struct RunQ rq; rq.current = &CURTH;', 1), (r'if_update_now\(\);', ';', 1),
+        (r'__auto_type sw = AtomicRunQ\(rq\)\.goto_next\(\);', '/* AtomicRunQ(rq).goto_next() */;', 1),
+        (r'switch_context\(sw\.from, sw\.to\);', 'switch_context_ready();', 1)]),
+    Target('prelocked_thread_interrupt', TH, r'static void prelocked_thread_interrupt\(thread\* th, int error_number\)', rules=[
+        (r'vcpu_t\* vcpu = th->get_vcpu\(\);', 'struct vcpu_t *vcpu = ith_get_vcpu(th);', 1),
+        (r'RunQ rq;', 'struct IRunQ rq; rq.current = I_CURRENT;', 1),
+        (r'rq\.current->get_vcpu\(\)', 'ith_get_vcpu(rq.current)', 1),
+        (r'th->dequeue_ready_atomic\(states::(\w+)\);', r'ith_dequeue_ready_atomic(th, states_\1);', 1),
+        (r'th->dequeue_ready_atomic\(\);', 'ith_dequeue_ready_atomic(th, states_READY);', 1),   # default argument states::READY (thread.cpp:288)
+        (r'vcpu->move_to_standbyq_atomic\(th\);', 'vcpu_move_to_standbyq_atomic(vcpu, th);', 1),
+        (r'vcpu->sleepq\.pop\(th\);', 'vcpu_sleepq_pop(vcpu, th);', 1),
+        (r'AtomicRunQ\(rq\)\.insert_tail\(th\);', 'runq_insert_tail(rq, th);', 1)]),
+    Target('thread_interrupt', TH, r'void thread_interrupt\(thread\* th, int error_number\)\s*(?=\{)',
+        pre_rules=[(r'LOG_ERROR_RETURN\(EINVAL, , "invalid parameter"\);', '{ errno = EINVAL; return; }', 1)],
+        defers=dict(rettype='void', scoped_lock=('ith_lock(th) /* {0} */', 'ith_unlock(th) /* {0} */')),
+        rules=[(r'states::(\w+)', r'states_\1', 1)]),
     Target('shutdown_usleep', TH, r'static int do_shutdown_usleep\(Timeout timeout, RunQ rq\)', rules=[
         (r'timeout\.timeout_at_most\(', 'Timeout_at_most(&timeout, ', 1)]),
     Target('shutdown_usleep_defer', TH, r'static int do_shutdown_usleep_defer\(Timeout timeout,\s*defer_func defer, void\* defer_arg, RunQ rq\)', rules=[
@@ -47,6 +64,9 @@ PROOFS = [
     Proof('sat_arith', 'sleep.c', 'h_sat', kind='L', min_obligations=2),
     Proof('timeout', 'sleep.c', 'h_timeout', kind='L', min_obligations=5),
     Proof('error_number', 'sleep.c', 'h_error_number', kind='L', min_obligations=5),
+    Proof('yield_consumes_interrupt', 'sleep.c', 'h_yield', kind='L', min_obligations=2),
+    Proof('interrupt/sleeper', 'sleep.c', 'h_prelocked', kind='L', min_obligations=4),
+    Proof('interrupt/dispatch', 'sleep.c', 'h_interrupt', kind='L', defines=['STUB_PRELOCKED'], min_obligations=5),
     Proof('shutdown_cap', 'sleep.c', 'h_shutdown', kind='L', min_obligations=3),
     Proof('sleepq/push_n6', 'sleep.c', 'h_heap', kind='B', defines=['HN=7', 'OP=0'], unwind=10, bound='at most 6 sleepers before the operation, all 64-bit deadlines', timeout=900, mem_gb=16),
     Proof('sleepq/push_n14', 'sleep.c', 'h_heap', kind='B', defines=['HN=15', 'OP=0'], unwind=18, bound='at most 14 sleepers before the operation, all 64-bit deadlines', timeout=3000, mem_gb=24, tier='thorough'),
